@@ -345,7 +345,13 @@ class Run:
         m, s, k = self.model, self.stores[inst], op["op"]
         if k == "store":
             data = self.contents[op["c"]]
-            arg, stream = self.data_arg(op["c"], op.get("kind", "str"), op.get("offset", 0))
+            last = getattr(self, "_last_stream", None)
+            if op.get("reuse_stream") and last is not None and last[0] == op["c"] and not last[1].closed:
+                arg = stream = last[1]     # the SAME stream object the caller handed to an earlier call, as that call left it
+            else:
+                arg, stream = self.data_arg(op["c"], op.get("kind", "str"), op.get("offset", 0))
+            if stream is not None:
+                self._last_stream = (op["c"], stream)
             private_src = None
             if op.get("clobber_source") and stream is None and op.get("kind", "str") in ("str", "path"):
                 # a private copy of the source file on the store's file system (hard links possible)
